@@ -29,6 +29,12 @@ def tricky_prefix(r):
         out.append(['assert', ['str.contains', 'sv', '"b c"']])
         out.append(
             ['assert', ['str.contains', ['str.++', 'sv', '"x"'], '"x"']])
+    if r.random() < 0.4:
+        # only one of the two names a mutator would invent is taken
+        out.append(['declare-const', 'tv', 'String'])
+        out.append(['declare-const', r.choice(['tv_suffix', 'tv_prefix']),
+                    'String'])
+        out.append(['assert', ['str.contains', 'tv', '"q"']])
     if r.random() < 0.5:
         out.append(['declare-const', 'bw', ['_', 'BitVec', '8']])
         out.append(['declare-const', '_bw', ['_', 'BitVec', '8']])
